@@ -596,6 +596,7 @@ void body(V::Ctx &ctx)
     const std::vector<int> all8 = {bT, bF, bAT, bAF, bST, bSF, b2T, b2F};
     const std::vector<int> four = {bT, bF, bAT, bAF};
     const std::vector<int> six = {bT, bF, bAT, bAF, bST, b2F};
+    const std::vector<int> five = {bT, bF, bAT, bAF, bST};
 
     {   // no rules at all (the directive was never configured)
         Structure s;
@@ -606,10 +607,10 @@ void body(V::Ctx &ctx)
     familyShared("S", all8, true);
     if (ctx.quick()) {
         familyPlain("R3", 3, 1, six, true);
-        familyGroup("G1", 1, four, true);
+        familyGroup("G1", 1, six, true);
     } else {
         familyPlain("R3", 3, 1, all8, true);
-        familyPlain("R3w", 3, 2, four, true);
+        familyPlain("R3w", 3, 2, five, true);
         familyGroup("G1", 1, all8, true);
         familyGroup("G2", 2, four, true);
     }
